@@ -1,6 +1,7 @@
 import LP.Props.C05
 import LP.Props.C03Fp
 import LP.Props.C05ModP
+import LP.Props.C05FpDiv
 #print axioms LP.Factor.toPolyZ_mul
 #print axioms LP.Factor.toPolyZ_pow
 #print axioms LP.Factor.toPolyZ_trim
@@ -11,3 +12,7 @@ import LP.Props.C05ModP
 #print axioms LP.FPoly.coprimeCert_sound
 #print axioms LP.C05_irreducible_of_mod_p
 #print axioms LP.C05_irreducible_of_degree_one
+#print axioms LP.FPoly.natDegree_norm
+#print axioms LP.FPoly.divModLoop_spec
+#print axioms LP.FPoly.divMod_spec
+#print axioms LP.FPoly.divMod_zero_iff
